@@ -268,7 +268,9 @@ def diagnose(F: Facts, v) -> str:
     if prop == 'C02' and cl == 'inversion':
         bus, e1, e2 = key
         pb2 = F.pe[(bus, e2)][0][0]
-        if runloop_held(F, e1, pb2):
+        # F14: the run loop sits on e1 (blocked on the global lock) while an *awaiting handler* drains e2 inline.
+        # A run loop that itself processes e2 before an e1 it had already taken is not that mechanism.
+        if runloop_held(F, e1, pb2) and F.pe[(bus, e2)][0][2].startswith('inline:'):
             return 'F14'
         return 'unexplained'
     if (prop == 'C02' and cl == 'serial_overlap') or (prop == 'C06' and cl == 'overlap'):
